@@ -24,7 +24,7 @@ func init() {
 		"one obligation per (mapping type × serialized form × direction), per Equals path, per truth assignment of the tolerance helper",
 		true, runC19)
 	register("C03",
-		"WEAKEST CLAIM — the property is numeric (alpha-accuracy, monotonicity, bin containment are NOT decided). DECIDED are only structural necessary conditions: D1 the manual floor of Index in every mapping (x ≥ 0 → int(x), else int(x) − 1) applied to log_like(value)·multiplier + indexOffset; D2 LowerBound applies the inverse function to (index − indexOffset)/multiplier with the same multiplier field, which the constructor sets to 1/log(gamma) in the matching base, and Value = LowerBound·(1+alpha) (C01-D4); D3 the int32 bounds MinInt32/MaxInt32 and the same offset/multiplier are wired into the min/max indexable values in every constructor; RelativeAccuracy is computed from the stored gamma only; D4 the reported accuracy inverts the construction formula — gamma = ((1+α)/(1−α))^k in the accuracy constructor and RelativeAccuracy() = 1 − 2/(1+E) with ln E = f·ln gamma where k·f = 1 (only literal constants are evaluated), and the float-range bounds use gamma^(1/k); D5 interpolation consistency — the inverse functions split x into int(math.Floor(x)) and x − math.Floor(x) (a truncating floor is wrong for exact negative integers), the cubic polynomial satisfies A+B+C = 1 (continuity at binade boundaries), the Cardano inverse uses the constants derived from the same A, B, C, and the gamma exponent equals (maximum slope)·ln 2. "+
+		"WEAKEST CLAIM — the property is numeric (alpha-accuracy, monotonicity, bin containment are NOT decided). DECIDED are only structural necessary conditions: D1 the manual floor of Index in every mapping (x ≥ 0 → int(x), else int(x) − 1) applied to log_like(value)·multiplier + indexOffset; D2 LowerBound applies the inverse function to (index − indexOffset)/multiplier with the same multiplier field, which the constructor sets to 1/log(gamma) in the matching base, and Value = LowerBound·(1+alpha) (C01-D4); D3 the int32 bounds MinInt32/MaxInt32 and the same offset/multiplier are wired into the min/max indexable values in every constructor; RelativeAccuracy is computed from the stored gamma only; D4 the reported accuracy inverts the construction formula — gamma = ((1+α)/(1−α))^k in the accuracy constructor and RelativeAccuracy() = 1 − 2/(1+E) with ln E = f·ln gamma where k·f = 1 (only literal constants are evaluated), and the float-range bounds use gamma^(1/k); every other call site of a gamma constructor in the module hands over a gamma it received (parameter, decoded or message field) and never computes one, so the validated formula cannot be bypassed with another kind's base; RelativeAccuracy may return a value precomputed at construction (resolved through what the constructor stores); D5 interpolation consistency — the inverse functions split x into int(math.Floor(x)) and x − math.Floor(x) (a truncating floor is wrong for exact negative integers), the cubic polynomial satisfies A+B+C = 1 (continuity at binade boundaries), the Cardano inverse uses the constants derived from the same A, B, C, and the gamma exponent equals (maximum slope)·ln 2. "+
 			"NOT DECIDED: everything the statement says about numbers (accuracy, monotonicity, bin edges, exact inverses).",
 		"one obligation per mapping × clause",
 		false, runC03)
@@ -756,6 +756,7 @@ func c19Symmetric(c *Ctx, rule string, helper *ssa.Function) {
 func runC03(c *Ctx) {
 	infos := mappingInfos(c, "C03")
 	c.R.floor("C03", "mapping implementations", len(infos), 3)
+	c03GammaCallSites(c, infos)
 	for _, mi := range infos {
 		name := mi.t.Obj().Name()
 		// D1 floor idiom
@@ -1234,4 +1235,60 @@ func c03AccuracyTerms(c *Ctx, mi mappingInfo) []*Term {
 		}
 	}
 	return out
+}
+
+// c03GammaCallSites (D4): the base gamma that gives a mapping kind the requested accuracy is a different function of
+// alpha for each kind ((1+α)/(1−α) raised to a kind-specific power), and C03-D4 validates that formula inside the
+// accuracy constructor of each kind. Every other call of a gamma constructor in the module must hand over a gamma it
+// received (a parameter, a decoded or message field) — never one it computes: a gamma computed from an accuracy
+// outside the accuracy constructor of the same kind bypasses the validated formula (the logarithmic base under cubic
+// interpolation gives about 1.01·α).
+func c03GammaCallSites(c *Ctx, infos []mappingInfo) {
+	const rule = "C03-D4"
+	ctorKind := map[*ssa.Function]mappingInfo{}
+	for _, mi := range infos {
+		ctorKind[mi.ctor] = mi
+	}
+	n := 0
+	for _, g := range c.P.Funcs {
+		if !inModule(g) {
+			continue
+		}
+		tc := newTermCtx(c.P)
+		tc.inline = false
+		k := 0
+		for _, b := range g.Blocks {
+			for _, in := range b.Instrs {
+				call, ok := in.(*ssa.Call)
+				if !ok {
+					continue
+				}
+				cal, ok := call.Common().Value.(*ssa.Function)
+				if !ok {
+					continue
+				}
+				mi, isCtor := ctorKind[cal]
+				if !isCtor || len(call.Common().Args) < 1 {
+					continue
+				}
+				n++
+				k++
+				key := fmt.Sprintf("%s/gamma-argument-of-%s#%d", helperKey(g), cal.Name(), k)
+				if g == mi.accCtor {
+					c.R.check(true, rule, key, shortFn(g), c.ipos(call), "the accuracy constructor of the kind computes its gamma (formula validated by accuracy-inverts-construction)", "accuracy constructor of the same kind")
+					continue
+				}
+				arg := tc.Of(call.Common().Args[0])
+				computed := ""
+				arg.walk(func(x *Term) bool {
+					if x.Op == "bin" || x.Op == "call" && strings.HasPrefix(x.Sym, "math.") {
+						computed = x.Key()
+					}
+					return true
+				})
+				c.R.check(computed == "", rule, key, shortFn(g), c.ipos(call), "outside the accuracy constructor of its kind a gamma constructor receives a gamma that was handed over (parameter, decoded or message field), not one computed on the spot", firstNonEmpty(computed, arg.Key()))
+			}
+		}
+	}
+	c.R.floor(rule, "call sites of the gamma constructors", n, 6)
 }
